@@ -778,6 +778,12 @@ func (s *State) GetReverseStateDiff(
 			value := felt.Zero
 			if blockNumber > 0 {
 				oldValue, err := s.ContractStorageAt(&addr, &key, blockNumber-1)
+				if errors.Is(err, ErrCheckHeadState) {
+					// No history entry above blockNumber-1: the slot has not changed since then (the
+					// diff wrote zero to a slot that was already zero, which logs nothing), so the
+					// head still holds the old value.
+					oldValue, err = s.ContractStorage(&addr, &key)
+				}
 				if err != nil {
 					return core.StateDiff{}, err
 				}
